@@ -200,11 +200,14 @@ class Engine:
                z3.If(S.is_VEnum(t), self._enum_cls(t), ids["builtins:builtin_all"])))))))
 
     def _enum_cls(self, t):
-        eids = sorted(self.class_ids[k] for k in self.enum_ids)
         e = S.ecls(t)
-        if not eids:
+        m = S.eid(t)
+        conds = []
+        for k, members in self.enum_ids.items():
+            conds.append(z3.And(e == self.class_ids[k], m >= 1, m <= len(members)))
+        if not conds:
             return z3.IntVal(0)
-        return z3.If(z3.Or([e == i for i in eids]), e, z3.IntVal(0))
+        return z3.If(z3.Or(conds), e, z3.IntVal(0))
 
     def concrete_subclasses(self, c):
         return [c] + sorted(c.subclasses, key=lambda x: x.key)
@@ -220,8 +223,11 @@ class Engine:
         co = self.cls_of(v)
         if z3.is_int_value(co):
             return z3.BoolVal(co.as_long() in ids)
-        # enum values
-        return z3.Or([co == i for i in sorted(ids)]) if ids else z3.BoolVal(False)
+        enum_ids = {self.class_ids[k] for k in self.enum_ids}
+        parts = []
+        for i in sorted(ids):
+            parts.append(z3.And(co == i, S.is_VEnum(v)) if i in enum_ids else co == i)
+        return z3.Or(parts) if parts else z3.BoolVal(False)
 
     def static_class(self, tv):
         """Exact class if syntactically known (fresh object, literal), else None."""
@@ -972,7 +978,8 @@ class Engine:
         co = self.cls_of(t)
         if z3.is_int_value(co):
             return z3.BoolVal(co.as_long() in ids)
-        return z3.Or([co == i for i in ids])
+        enum_ids = {self.class_ids[k] for k in self.enum_ids}
+        return z3.Or([z3.And(co == i, S.is_VEnum(t)) if i in enum_ids else co == i for i in ids])
 
     def _attr_group(self, base, r, classes, attr, node, frame):
         kind = r[0]
